@@ -75,6 +75,8 @@ ORIGINS = [
     ('http', '10.0.2.6', '10.0.2.6', '10.0.2.6', 80),
     ('http', '[fd00::6]', '[fd00::6]', 'fd00::6', 80),
     ('https', 'c.test', 'c.test', '10.0.2.3', 8443),
+    ('http', 'd.test', 'd.test', '10.0.2.7', 443),       # an explicit port that is the OTHER web scheme's default
+    ('https', 'd.test', 'd.test', '10.0.2.7', 80),
 ]
 DEFAULT_PORT = {'http': 80, 'https': 443}
 
@@ -295,6 +297,7 @@ def run(tape, prop, tier):
     h.connects = []
     h.visited_origins = []
     h.conn_reqs = {}
+    h.challenge_style = tape.draw(3, 'challenge.style')
     h.refuse_connects = 0
     h.connect_refused = False
     if use_proxy:
@@ -521,7 +524,9 @@ def run(tape, prop, tier):
             r.probes['perpetual_401'] += 1
             hops_desc['answer'] = '401'
             h.last_sched = 'auth-retry'
-            respond(conn, b'no', 401, 'Unauthorized', headers + [('WWW-Authenticate', 'Basic realm="x"')])
+            # the challenge may differ every time (a Digest nonce, a realm with a counter): still the same question
+            challenge = ('Basic realm="x"', 'Basic realm="x%d"' % hop, 'Digest realm="x", qop="auth", nonce="n%d", opaque="o"' % hop)[h.challenge_style]
+            respond(conn, b'no', 401, 'Unauthorized', headers + [('WWW-Authenticate', challenge)])
         elif strategy == 'perpetual_5xx':
             r.probes['server_5xx'] += 1
             final(tape.choice((500, 503), '5xx'))
